@@ -46,6 +46,10 @@ operators, both operand orders, uniform and per-channel scalars —, atomic arit
 By-products, for all thirteen constructors: `duration_correct` (the duration expression evaluates to the duration of
 the denoted pulse), `pulse_well_formed` (every channel of a denoted pulse consists of pieces of positive length that
 add up to the duration), `channel_played` (a kept channel is played unless the pulse has duration 0).
+Definedness, for all thirteen constructors: under the extra hypothesis `positive` (every part is actually played)
+the duration, the integral and -- where the class provides them -- the initial / final values evaluate
+(`duration_defined_partial`, `integral_defined_partial`, `ends_defined_partial`), so that no hypothesis about the
+closed form is left; without `positive` the success of `denote` does not imply it (skipped parts are never evaluated).
 The range arithmetic (`range_*`, `final_index_eq_last_iff`) and `pad_holds_final` are proved in full.
 -/
 namespace QP.Props.C07
